@@ -332,6 +332,9 @@ def _draw_nonempty(run: Run, prog: Program, model: Model) -> None:
             site = e.loc(prog)
             k = seq.key()
             ne = draw_nonempty(seq, p, e)
+            if ne is None and isinstance(seq, Term) and seq.op == "call" and seq.args and isinstance(seq.args[0], str) \
+                    and seq.args[0] in prog.functions:
+                ne = _returns_nonempty(prog, model, cls, prog.functions[seq.args[0]])
             if ne is True:
                 c = f"RegexGenerator.{caller}: draw from {'a constant alphabet' if isinstance(seq, Const) else k[:40]}"
                 seen.setdefault(c, ("HOLDS", site, "non-empty"))
@@ -350,6 +353,47 @@ def _draw_nonempty(run: Run, prog: Program, model: Model) -> None:
             run.violated("DRAW-NONEMPTY", c, site, detail,
                          witness="fake(schema.str.regex(r'^[^ -~]$')) raises IndexError although the schema accepts e.g. 'é'")
     run.floor("DRAW-NONEMPTY", 3)
+
+
+_RET_NONEMPTY: Dict[str, Optional[bool]] = {}
+
+
+def _returns_nonempty(prog: Program, model: Model, cls: ClassInfo, fi: FuncInfo) -> Optional[bool]:
+    """Does every returning path of this (not inlined) helper return a provably non-empty sequence?"""
+    from ..partial import draw_nonempty
+    if fi.qualname in _RET_NONEMPTY:
+        return _RET_NONEMPTY[fi.qualname]
+    _RET_NONEMPTY[fi.qualname] = None
+    params = [a.arg for a in fi.node.args.posonlyargs + fi.node.args.args if a.arg != "self"]
+    it = Interp(prog, model, unroll=1)
+
+    def run(i: Interp) -> V:
+        g = make_visitor(i, "Generator")
+        rg = g.attrs.get("_regex_generator")
+        return i.call_function(fi, [Sym(f"arg.{p_}", None, ("param", p_)) for p_ in params], {}, self_val=rg if fi.cls is not None else None)
+    ok = None
+    try:
+        for p in it.run_paths(run, max_paths=300):
+            if p.outcome != "return" or p.value is None:
+                continue
+            ev = Event("return", None, fi.qualname, {}, len(p.facts))
+            r = draw_nonempty(p.value, p, ev)
+            if r is not True:
+                ok = False
+                break
+            ok = True
+    except Exception:
+        ok = None
+    _RET_NONEMPTY[fi.qualname] = ok
+    return ok
+
+
+def _le_on_path(lo: V, hi: V, p: Path) -> bool:
+    from .c01 import le
+    try:
+        return lo.key() == hi.key() or le(lo, hi, list(p.facts)) is True
+    except Exception:
+        return False
 
 UNKNOWN = "__NO_SUCH_CODE__"
 
@@ -490,6 +534,8 @@ def _children(run: Run, prog: Program, model: Model, cls: ClassInfo) -> None:
                     probs.append("open-ended repeat draws up to MAXREPEAT itself")
             elif isinstance(hi, Term) and hi.op == "max" and any(a.key() == "min_count" for a in hi.args):
                 pass     # max(cap, min) >= min
+            elif open_branch and _le_on_path(lo, hi, p):
+                pass     # the path condition itself establishes min <= upper (e.g. `min if min > cap else cap`)
             elif open_branch:
                 probs.append(f"open-ended repeat capped at {hi.key()[:40]} which may be below the minimum count")
             else:
